@@ -851,10 +851,12 @@ class Runner:
                 continue
             names = sorted(mc.members)
             views = collections.defaultdict(dict)  # name -> view -> etag
+            get_bodies = {}
             for n in names:
                 views[n]["propfind"] = self.cur_etag.get((coll, n))
                 r = self.req(fe, "GET", self.member_path(coll, n), None, None)
                 views[n]["get"] = r.header("ETag")
+                get_bodies[n] = r.body
                 r = self.req(fe, "HEAD", self.member_path(coll, n), None, None)
                 views[n]["head"] = r.header("ETag")
             if last.get("ack") and last.get("op") == "PUT" and last.get("coll") == coll and last.get("name") in mc.members:
@@ -879,10 +881,20 @@ class Runner:
                     extra = [(oc, n2) for oc, om in sorted(self.model.colls.items()) if oc != coll and om.kind == kind for n2 in sorted(om.members) if n2.endswith(ext) and self.cur_etag.get((oc, n2))][:2]
                     xh = [self.world.url(self.member_path(oc, n2)) for oc, n2 in extra]
                     hrefs = (xh + hrefs) if self.step_no % 3 == 0 else (hrefs + xh)
-                    r = self.req(fe, "REPORT", coll + "/", [("Depth", "1"), dav.XML_CT], dav.multiget_body(kind, hrefs, data=False))
+                    r = self.req(fe, "REPORT", coll + "/", [("Depth", "1"), dav.XML_CT], dav.multiget_body(kind, hrefs, data=True))
                     ms = dav.parse_ms(r)
                     if ms is not None:
                         pre = self.world.prefix.rstrip("/")
+                        dprop = "{urn:ietf:params:xml:ns:caldav}calendar-data" if kind == "calendar" else "{urn:ietf:params:xml:ns:carddav}address-data"
+                        for resp in ms.responses:
+                            # same ETag => same bytes: the data a report serves under an ETag is what GET serves
+                            n0 = name_from_href(resp.href)
+                            data = resp.prop_text(dprop)
+                            rp0 = dav.href_path(resp.href) or ""
+                            if n0 in get_bodies and data is not None and posixpath.dirname((rp0[len(pre):] if pre and rp0.startswith(pre) else rp0).rstrip("/")) == coll and resp.prop_text(P_ETAG) == views[n0].get("get"):
+                                self.stats["view:multiget-data-compared"] += 1
+                                if data.encode("utf-8").replace(b"\r\n", b"\n") != get_bodies[n0].replace(b"\r\n", b"\n"):
+                                    self.violation("etag-strong", "report-data-differs-under-same-etag", f"{coll}/{n0}: multiget serves {data[:300]!r} under ETag {resp.prop_text(P_ETAG)}, GET serves {get_bodies[n0][:300]!r} under the same ETag")
                         for resp in ms.responses:
                             rp = dav.href_path(resp.href) or ""
                             rp = rp[len(pre):] if pre and rp.startswith(pre) else rp
